@@ -442,11 +442,12 @@ def explore(run_once, max_preemptions, limit, rng=None, random_runs=0):
     """stateless exploration: run_once(chooser) executes the scenario once.
     Enumerates all schedules with at most max_preemptions switch points (DFS over the branch points discovered),
     up to `limit` executions, then `random_runs` random schedules.  Yields (chooser, result)."""
+    import collections
     seen = set()
-    stack = [()]
+    stack = collections.deque([()])
     n = 0
     while stack and n < limit:
-        pre = stack.pop()
+        pre = stack.popleft()
         if pre in seen:
             continue
         seen.add(pre)
